@@ -625,6 +625,8 @@ fn stream<F: FnMut(&mut Vec<u8>) -> bool>(
     src: GenSrc<F>,
     chunk: usize,
     expected_items_half: u64,
+    // AIGER: how many entries of each section the consumer takes before it moves on to the next section
+    take: u64,
 ) -> RunStats {
     let win = Window::open();
     let mut items = 0u64;
@@ -716,40 +718,76 @@ fn stream<F: FnMut(&mut Vec<u8>) -> bool>(
             let res = (|| -> Result<(), flussab_aiger::ParseError> {
                 let p = Parser::<u32>::new(lr, Config::default())?;
                 let mut s = p.inputs()?;
-                while s.next_input()?.is_some() {
-                    tick(&mut items);
+                {
+                    let mut taken = 0u64;
+                    while taken < take && s.next_input()?.is_some() {
+                        tick(&mut items);
+                        taken += 1;
+                    }
                 }
                 let mut s = s.latches()?;
-                while s.next_latch()?.is_some() {
-                    tick(&mut items);
+                {
+                    let mut taken = 0u64;
+                    while taken < take && s.next_latch()?.is_some() {
+                        tick(&mut items);
+                        taken += 1;
+                    }
                 }
                 let mut s = s.outputs()?;
-                while s.next_output()?.is_some() {
-                    tick(&mut items);
+                {
+                    let mut taken = 0u64;
+                    while taken < take && s.next_output()?.is_some() {
+                        tick(&mut items);
+                        taken += 1;
+                    }
                 }
                 let mut s = s.bad_state_properties()?;
-                while s.next_bad_state_property()?.is_some() {
-                    tick(&mut items);
+                {
+                    let mut taken = 0u64;
+                    while taken < take && s.next_bad_state_property()?.is_some() {
+                        tick(&mut items);
+                        taken += 1;
+                    }
                 }
                 let mut s = s.invariant_constraints()?;
-                while s.next_invariant_constraint()?.is_some() {
-                    tick(&mut items);
+                {
+                    let mut taken = 0u64;
+                    while taken < take && s.next_invariant_constraint()?.is_some() {
+                        tick(&mut items);
+                        taken += 1;
+                    }
                 }
                 let mut s = s.justice_properties()?;
-                while s.next_justice_property_size()?.is_some() {
-                    tick(&mut items);
+                {
+                    let mut taken = 0u64;
+                    while taken < take && s.next_justice_property_size()?.is_some() {
+                        tick(&mut items);
+                        taken += 1;
+                    }
                 }
                 let mut s = s.justice_property_local_fairness_constraints()?;
-                while s.next_justice_property_local_fairness_constraint()?.is_some() {
-                    tick(&mut items);
+                {
+                    let mut taken = 0u64;
+                    while taken < take && s.next_justice_property_local_fairness_constraint()?.is_some() {
+                        tick(&mut items);
+                        taken += 1;
+                    }
                 }
                 let mut s = s.fairness_constraints()?;
-                while s.next_fairness_constraint()?.is_some() {
-                    tick(&mut items);
+                {
+                    let mut taken = 0u64;
+                    while taken < take && s.next_fairness_constraint()?.is_some() {
+                        tick(&mut items);
+                        taken += 1;
+                    }
                 }
                 let mut s = s.and_gates()?;
-                while s.next_and_gate()?.is_some() {
-                    tick(&mut items);
+                {
+                    let mut taken = 0u64;
+                    while taken < take && s.next_and_gate()?.is_some() {
+                        tick(&mut items);
+                        taken += 1;
+                    }
                 }
                 let mut s = s.symbols()?;
                 while s.next_symbol()?.is_some() {
@@ -767,36 +805,68 @@ fn stream<F: FnMut(&mut Vec<u8>) -> bool>(
             let res = (|| -> Result<(), flussab_aiger::ParseError> {
                 let p = Parser::<u32>::new(lr, Config::default())?;
                 let mut s = p.latches()?;
-                while s.next_latch()?.is_some() {
-                    tick(&mut items);
+                {
+                    let mut taken = 0u64;
+                    while taken < take && s.next_latch()?.is_some() {
+                        tick(&mut items);
+                        taken += 1;
+                    }
                 }
                 let mut s = s.outputs()?;
-                while s.next_output()?.is_some() {
-                    tick(&mut items);
+                {
+                    let mut taken = 0u64;
+                    while taken < take && s.next_output()?.is_some() {
+                        tick(&mut items);
+                        taken += 1;
+                    }
                 }
                 let mut s = s.bad_state_properties()?;
-                while s.next_bad_state_property()?.is_some() {
-                    tick(&mut items);
+                {
+                    let mut taken = 0u64;
+                    while taken < take && s.next_bad_state_property()?.is_some() {
+                        tick(&mut items);
+                        taken += 1;
+                    }
                 }
                 let mut s = s.invariant_constraints()?;
-                while s.next_invariant_constraint()?.is_some() {
-                    tick(&mut items);
+                {
+                    let mut taken = 0u64;
+                    while taken < take && s.next_invariant_constraint()?.is_some() {
+                        tick(&mut items);
+                        taken += 1;
+                    }
                 }
                 let mut s = s.justice_properties()?;
-                while s.next_justice_property_size()?.is_some() {
-                    tick(&mut items);
+                {
+                    let mut taken = 0u64;
+                    while taken < take && s.next_justice_property_size()?.is_some() {
+                        tick(&mut items);
+                        taken += 1;
+                    }
                 }
                 let mut s = s.justice_property_local_fairness_constraints()?;
-                while s.next_justice_property_local_fairness_constraint()?.is_some() {
-                    tick(&mut items);
+                {
+                    let mut taken = 0u64;
+                    while taken < take && s.next_justice_property_local_fairness_constraint()?.is_some() {
+                        tick(&mut items);
+                        taken += 1;
+                    }
                 }
                 let mut s = s.fairness_constraints()?;
-                while s.next_fairness_constraint()?.is_some() {
-                    tick(&mut items);
+                {
+                    let mut taken = 0u64;
+                    while taken < take && s.next_fairness_constraint()?.is_some() {
+                        tick(&mut items);
+                        taken += 1;
+                    }
                 }
                 let mut s = s.and_gates()?;
-                while s.next_and_gate()?.is_some() {
-                    tick(&mut items);
+                {
+                    let mut taken = 0u64;
+                    while taken < take && s.next_and_gate()?.is_some() {
+                        tick(&mut items);
+                        taken += 1;
+                    }
                 }
                 let mut s = s.symbols()?;
                 while s.next_symbol()?.is_some() {
@@ -902,7 +972,13 @@ impl Monitor for C10 {
             Fmt::Btor2 => target / 24 / 2,
             _ => target / 17 / 2,
         };
-        let st = sut(|| stream(fmt, src, chunk, half.max(1)));
+        // AIGER (no 1 MiB-line profile there): the second half of the grid takes only two entries of every
+        // section and lets the section readers pass over the rest
+        let take = if item_based && (idx / 96) % 2 == 1 { 2 } else { u64::MAX };
+        if item_based {
+            rep.inc(if take == 2 { "aiger_consumer:two_entries_per_section" } else { "aiger_consumer:every_entry" });
+        }
+        let st = sut(|| stream(fmt, src, chunk, half.max(1), take));
         let max_item_b = max_item.get() as usize;
         let bound = 8 * chunk + 4 * max_item_b + (16 << 10);
         rep.inc("streams");
